@@ -161,4 +161,216 @@ theorem FlowStats_unmarshalP_new_loc_ok {x y : Slice} (haw : AW x y) (hok : flow
   simp only [hln, h4, hmp, hlp] at hrest
   rw [decodeInstrs_loc_ok haw _ _ _ ⟨_, hrest⟩]
 
+theorem decodeRecord_loc_ok (ty : Nat) {x y : Slice} (haw : AW x y)
+    (hok : ty = Gen.openflow13.MultipartType_Flow → flowStatsOK y = true) :
+    MultipartReply.decodeRecord ty x = MultipartReply.decodeRecord ty y := by
+  unfold MultipartReply.decodeRecord msgTryU
+  rw [AggregateStats_loc _ haw, DescStats_loc _ haw, PortStats_loc _ haw, TableStats_loc _ haw, QueueStats_loc _ haw]
+  apply ite_congr rfl (fun _ => rfl); intro _
+  apply ite_congr rfl (fun _ => rfl); intro _
+  apply ite_congr rfl _ (fun _ => rfl); intro hc
+  exact FlowStats_unmarshalP_new_loc_ok haw (hok hc)
+
+/-- the record loop of a multipart reply of type `ty` (`for n < Header.Length`), checked: every reached flow-stats record
+    passes `flowStatsOK` -/
+def recordsOK (cl : MsgLenF) (u : Slice) (ty limit : Nat) : Nat → Nat → Bool
+  | 0, _ => false
+  | f + 1, n =>
+    if n < limit then
+      (match u.fromR n with
+       | .ok d =>
+         (if ty = Gen.openflow13.MultipartType_Flow then flowStatsOK d else true) &&
+         (match MultipartReply.decodeRecord ty d with
+          | .ok (r, e) =>
+            e || (match cl r with
+                  | .ok (l, _) => l == 0 || recordsOK cl u ty limit f (n + l.toNat)
+                  | _ => true)
+          | _ => true)
+       | _ => true)
+    else true
+
+theorem recordsOK_step (cl : MsgLenF) (u : Slice) (ty limit n : Nat) (hI : ∃ f, recordsOK cl u ty limit f n = true) (hlt : n < limit) :
+    (∀ d, u.fromR n = .ok d → ty = Gen.openflow13.MultipartType_Flow → flowStatsOK d = true) ∧
+    (∀ d r l r', u.fromR n = .ok d → MultipartReply.decodeRecord ty d = .ok (r, false) → cl r = .ok (l, r') → l ≠ 0 →
+      ∃ f, recordsOK cl u ty limit f (n + l.toNat) = true) := by
+  obtain ⟨f, hf⟩ := hI
+  cases f with
+  | zero => simp [recordsOK] at hf
+  | succ f =>
+    unfold recordsOK at hf
+    rw [if_pos hlt] at hf
+    refine ⟨?_, ?_⟩
+    · intro d hd hty
+      rw [hd] at hf
+      simp only [Bool.and_eq_true, hty, if_true] at hf
+      exact hf.1
+    · intro d r l r' hd hdr hl hz
+      rw [hd] at hf
+      simp only [hdr, hl, Bool.and_eq_true, Bool.or_eq_true, beq_iff_eq, Bool.false_eq_true, false_or] at hf
+      rcases hf.2 with h | h
+      · exact absurd h hz
+      · exact ⟨f, h⟩
+
+/-- the in-frame condition of a multipart reply as Parse decodes it -/
+def MultipartInFrameAt (cl : MsgLenF) (u : Slice) : Prop :=
+  8 ≤ u.len ∧
+  ∀ hp mt, msgTryU Header.unmarshal Header.zero u = .ok hp → u.u16From 8 = .ok mt →
+    recordsOK cl u mt.toNat (Header.length hp.1) (u.len + 2) 16 = true
+
+theorem MultipartReply_loc_inframe (cl : MsgLenF) {s u : Slice} (haw : AW s u) (hok : MultipartInFrameAt cl u) :
+    MultipartReply.unmarshalWith cl MultipartReply.zero s = MultipartReply.unmarshalWith cl MultipartReply.zero u := by
+  obtain ⟨h8, hok⟩ := hok
+  unfold MultipartReply.unmarshalWith MultipartReply.zero
+  simp only []
+  loc_norm haw
+  rw [msgTryU_Header_loc _ haw h8]
+  apply bind_congr_ok; intro hp hhp
+  apply bind_congr_ok; intro mt hmt
+  apply Res.bind_congr2 rfl; intro _
+  have hI := hok hp mt hhp hmt
+  apply Res.bind_congr2 _ (fun _ => rfl)
+  apply msgLoopW_congr_inv _ _ _ _ (fun st => ∃ f, recordsOK cl u mt.toNat (Header.length hp.1) f st.n = true)
+  · intro st hst hc
+    simp only [decide_eq_true_eq] at hc
+    obtain ⟨hin, _⟩ := recordsOK_step cl u _ _ st.n hst hc
+    rcases Slice.fromR_loc haw st.n with ⟨h5, h6⟩ | ⟨xd, yd, h5, h6, hxyd⟩
+    · rw [h5, h6]
+    · rw [h5, h6]
+      simp only [Res.bind_ok]
+      rw [decodeRecord_loc_ok _ hxyd (hin yd h6)]
+  · intro st st' hst hc hb
+    simp only [decide_eq_true_eq] at hc
+    obtain ⟨_, hnext⟩ := recordsOK_step cl u _ _ st.n hst hc
+    cases hd : u.fromR st.n with
+    | ok yd =>
+      rw [hd] at hb; simp only [Res.bind_ok] at hb
+      cases hdr : MultipartReply.decodeRecord mt.toNat yd with
+      | ok p =>
+        obtain ⟨r, e⟩ := p
+        rw [hdr] at hb; simp only [Res.bind_ok] at hb
+        cases e with
+        | true => simp at hb
+        | false =>
+          simp only [Bool.false_eq_true, if_false] at hb
+          cases hl : cl r with
+          | ok q =>
+            obtain ⟨l, r'⟩ := q
+            rw [hl] at hb; simp only [Res.bind_ok] at hb
+            by_cases hz : l = 0
+            · rw [if_pos hz] at hb; cases hb
+            · rw [if_neg hz] at hb; cases hb; exact hnext yd r l r' hd hdr hl hz
+          | err => rw [hl] at hb; cases hb
+          | panic => rw [hl] at hb; cases hb
+          | spin => rw [hl] at hb; cases hb
+      | err => rw [hdr] at hb; cases hb
+      | panic => rw [hdr] at hb; cases hb
+      | spin => rw [hdr] at hb; cases hb
+    | err => rw [hd] at hb; cases hb
+    | panic => rw [hd] at hb; cases hb
+    | spin => rw [hd] at hb; cases hb
+  · exact ⟨_, hI⟩
+
+/-- the in-frame condition of a multipart reply, evaluated on the visible bytes alone.  For a reply of a type other than
+    flow it only asks for the 8 header bytes (the record walk has nothing to check). -/
+def FlowStatsInFrame (t : Slice) : Prop := MultipartInFrameAt anyLenM (Slice.exact t.bytes)
+
+theorem MultipartReply_loc_visible {s t : Slice} (haw : AW s t) (hok : FlowStatsInFrame t) :
+    MultipartReply.unmarshalWith anyLenM MultipartReply.zero s = MultipartReply.unmarshalWith anyLenM MultipartReply.zero t := by
+  have ht := AW_exact haw.2.1
+  rw [MultipartReply_loc_inframe anyLenM (AW_trans haw ht) hok, MultipartReply_loc_inframe anyLenM ht hok]
+
+/-- good frames, final form: at least 8 bytes; a flow-mod passes `FlowModInFrame`, a multipart reply passes
+    `FlowStatsInFrame`; an experimenter frame is not cut before its Length field, a TLV table reply has Length ≥ 32, and the
+    message embedded in a bundle-add is again good -/
+def GoodFrame3 : Nat → Slice → Prop
+  | 0, _ => False
+  | n + 1, t =>
+    8 ≤ t.len ∧
+    ∀ tb, t.byteAt 1 = .ok tb →
+      (tb.toNat = Gen.openflow13.Type_FlowMod → FlowModInFrame t) ∧
+      (tb.toNat = Gen.openflow13.Type_MultiPartReply → FlowStatsInFrame t) ∧
+      (tb.toNat = Gen.openflow13.Type_Experimenter →
+        (∀ w, t.u16In 2 4 = .ok w → w.toNat ≤ t.len) ∧
+        (∀ ty, t.u32From 12 = .ok ty →
+          (ty.toNat = Gen.openflow13.Type_TlvTableReply → ∀ w, t.u16In 2 4 = .ok w → 32 ≤ w.toNat) ∧
+          (ty.toNat = Gen.openflow13.Type_BundleAdd → ∀ w body ml inner, t.u16In 2 4 = .ok w →
+            t.sliceR 16 w.toNat = .ok body → body.u16From 10 = .ok ml → body.sliceR 8 (8 + ml.toNat) = .ok inner →
+            GoodFrame3 n inner)))
+
+theorem parseD_good3_loc : ∀ (n : Nat) (s t : Slice), AW s t → GoodFrame3 n t → ∀ d d', t.len ≤ d → t.len ≤ d' →
+    parseD (d + 1) s = parseD (d' + 1) t := by
+  intro n
+  induction n with
+  | zero => intro s t _ hg; exact absurd hg (by unfold GoodFrame3; exact fun h => h)
+  | succ n ih =>
+    intro s t haw hg d d' hd hd'
+    unfold GoodFrame3 at hg
+    obtain ⟨h8, hk⟩ := hg
+    unfold parseD
+    rw [parseStep_loc4 (parseD d) (parseD d') haw h8]
+    intro tb htb
+    obtain ⟨hfm, hmp, hexp⟩ := hk tb htb
+    refine ⟨fun he => ?_, fun hf => FlowMod_loc_visible haw (hfm hf), fun hm => MultipartReply_loc_visible haw (hmp hm)⟩
+    obtain ⟨hL, hty⟩ := hexp he
+    apply VendorHeader_unmarshalWith_loc_partial3 _ _ _ haw hL
+    intro w ty x y hw hty' hy hxy
+    obtain ⟨htlv, hba⟩ := hty ty hty'
+    have hylen := (Slice.sliceR_wf t 16 _ y hy).2
+    have hwle := hL w hw
+    apply decodeVendorDataWith_loc_partial2 _ _ _ _ _ hxy
+    · intro h26; have := htlv h26 w hw; omega
+    · intro h2301 ml u v hml hv huv hv8 hvl
+      have hgi := hba h2301 w y ml v hw hy hml hv
+      have e1 : d = (d - 1) + 1 := by omega
+      have e2 : d' = (d' - 1) + 1 := by omega
+      rw [e1, e2]
+      exact ih u v huv hgi _ _ (by omega) (by omega)
+
+/-- Parse on every good frame (final form) -/
+theorem parse_good4_loc (n : Nat) {s t : Slice} (haw : AW s t) (hg : GoodFrame3 n t) (d d' : Nat) : parse d s = parse d' t := by
+  unfold parse
+  have hs := haw.1
+  have ht := haw.2.1
+  have hl := haw.len_eq
+  unfold Slice.WF at hs ht
+  unfold Slice.cap
+  have e1 : max d (s.buf.length + 1) = (max d (s.buf.length + 1) - 1) + 1 := by omega
+  have e2 : max d' (t.buf.length + 1) = (max d' (t.buf.length + 1) - 1) + 1 := by omega
+  rw [e1, e2]
+  exact parseD_good3_loc n s t haw hg _ _ (by omega) (by omega)
+
+/-- a conformant multipart reply of type flow, 104 bytes: one flow-stats record of 88 bytes (empty match, goto-table 5,
+    apply-actions [output port 1]) -/
+def mpGoodFrame : Bytes :=
+  [4, 19, 0, 104, 0, 0, 0, 7, 0, 1, 0, 0, 0, 0, 0, 0] ++
+  ([0, 88, 0, 0] ++ zeros 44 ++ [0, 1, 0, 4, 0, 0, 0, 0] ++ [0, 1, 0, 8, 5, 0, 0, 0] ++
+   [0, 4, 0, 24, 0, 0, 0, 0] ++ [0, 0, 0, 16, 0, 0, 0, 1, 0xff, 0xff, 0, 0, 0, 0, 0, 0])
+
+theorem mpGoodFrame_inframe (tail : Bytes) : FlowStatsInFrame ⟨mpGoodFrame ++ tail, 104⟩ := by
+  have hb : (Slice.mk (mpGoodFrame ++ tail) 104).bytes = mpGoodFrame := by
+    unfold Slice.bytes
+    show List.take 104 (mpGoodFrame ++ tail) = mpGoodFrame
+    rw [List.take_append_of_le_length (by decide)]
+    rfl
+  unfold FlowStatsInFrame
+  rw [hb]
+  refine ⟨by decide, ?_⟩
+  intro hp mt hhp hmt
+  have ehp : msgTryU Header.unmarshal Header.zero (Slice.exact mpGoodFrame) =
+      .ok (.obj "Header" [.num 4, .num 19, .num 104, .num 7], false) := rfl
+  rw [ehp] at hhp; cases hhp
+  have emt : (Slice.exact mpGoodFrame).u16From 8 = .ok 1 := rfl
+  rw [emt] at hmt; cases hmt
+  rfl
+
+/-- the over-read frame of `parse_multipart_flowstats_not_local_counterexample` fails the check -/
+theorem mpCex_not_inframe : ¬ FlowStatsInFrame mpCexT := by
+  intro h
+  have hb : mpCexT.bytes = mpFrame := by rfl
+  unfold FlowStatsInFrame at h
+  rw [hb] at h
+  have h' := h.2 (.obj "Header" [.num 4, .num 19, .num 80, .num 7], false) 1 rfl rfl
+  have hf : recordsOK anyLenM (Slice.exact mpFrame) 1 80 ((Slice.exact mpFrame).len + 2) 16 = false := rfl
+  exact absurd (h'.symm.trans hf) (by decide)
+
 end OFV.Model
